@@ -34,6 +34,22 @@ def results_space(tier: str):
             add("gen:C01", sql)
         else:
             add("gen:C01", sqlgen.render(st, sqlgen.R(dialect="postgres")), "postgres")
+    # statements that read or write file paths (C01's second ball), under a dialect that has the form
+    from vmc.c01 import has_path
+
+    for sql, (st, trace, ndev) in enumerate_cases(sqlgen.PATH_PROFILE, D - 1, 2)[0]:
+        if has_path(st):
+            d = "postgres" if st["kind"] in ("copy_from", "copy_to") else "sparksql"
+            add("gen:C01paths", sqlgen.render(st, sqlgen.R(dialect=d)), d)
+    for script in (
+        "INSERT OVERWRITE DIRECTORY 'dir/p1/' SELECT c1, c2 FROM t1;\nINSERT INTO fin SELECT c1 FROM parquet.`dir/p1/`",
+        "INSERT INTO stage SELECT c1, c2 FROM csv.`dir/in/`;\nINSERT OVERWRITE DIRECTORY 'dir/out/' SELECT c1 FROM stage",
+        "INSERT INTO fin SELECT a.c1, b.c2 FROM parquet.`dir/p1/` a JOIN json.`dir/p2/` b ON 1 = 1",
+    ):
+        add("extra:paths", script, "sparksql")
+    for script in ("COPY stage (c1, c2) FROM '/abs/in.csv';\nINSERT INTO fin SELECT c1 FROM stage;\nCOPY fin TO '/abs/out.csv'",
+                   "COPY (SELECT a.c1, b.c2 FROM t1 a JOIN t2 b ON 1 = 1) TO '/abs/out.csv'"):
+        add("extra:paths", script, "postgres")
     C = sqlgen.CENTRES
     plan = [("simple", C["simple"], D), ("join", C["join"], 1), ("derived", C["derived"], 1), ("cte", C["cte"], 1), ("star", C["star"], 1), ("setop", C["setop"], 1)]
     if tier != "quick":
